@@ -249,6 +249,51 @@ def _stranded(cfg, snap, node_ok):
     return False
 
 
+def _inversion_at(snap, j):
+    n = snap['nodes'][j]
+    w, sv = [], []
+    for q in n['queues']:
+        for i in q:
+            ind = snap['inds'][i]
+            if ind['service_start_date'] is None:
+                if not ind['interrupted']:
+                    w.append(ind['prio'])
+            else:
+                sv.append(ind['prio'])
+    return any(pq > pw for pw in w for pq in sv)
+
+
+def _f11cd(pid, cfg, tr, v, want_pre):
+    if v[0] != 'R' or v[2] != 171:
+        return False
+    vf = frame_verdict(pid, tr, v)
+    k = vf[1]
+    if not isinstance(k, int) or k < 1 or k > len(tr.frames):
+        return False
+    snap = tr.frames[k - 1]['snap']
+    pre = cfg.get('preempt') or []
+    for j, sv in enumerate(cfg['servers']):
+        if not (isinstance(sv, dict) and sv['kind'] == 'sched' and j < len(pre) and pre[j]):
+            continue
+        if bool(sv.get('pre')) != want_pre or not _inversion_at(snap, j):
+            continue
+        if want_pre or any(x['offduty'] and x['busy'] for x in (snap['nodes'][j]['servers'] or [])):
+            return True
+    return False
+
+
+@trigger('F-11c')
+def _f11c(pid, cfg, tr, v):
+    """inversion at a node with pre-emptive priorities AND a pre-emptive Schedule (interrupted customers restart first)"""
+    return _f11cd(pid, cfg, tr, v, True)
+
+
+@trigger('F-11d')
+def _f11d(pid, cfg, tr, v):
+    """inversion at a node with pre-emptive priorities and a non-pre-emptive Schedule while an off-duty server is busy (overtime)"""
+    return _f11cd(pid, cfg, tr, v, False)
+
+
 @trigger('F-07b')
 def _f07b(pid, cfg, tr, v):
     """a 'reroute' priority pre-emption at a node with a finite queue capacity: the place the victim frees is not offered to the blocked queue"""
